@@ -33,6 +33,7 @@ type FuncAn struct {
 	rpo       []*ssa.BasicBlock
 	entry     *State // precondition facts (roots: none)
 	EntryNote []string // rendered entry facts
+	CountNotes []string // paired-count lemmas used
 
 	elemLenMemo map[ssa.Value]*Lin
 	inited      map[*Atom]bool
